@@ -410,6 +410,10 @@ func runC07(c *Ctx) {
 	})
 
 	entryRule(c, "R-C07-ATOMICWRITE")
+	// "the TTL alone never hides an item": an expired entry is skipped, it does not end the enumeration of its shard
+	importRulesWhere(c, runC13, map[string]string{"R-C13-ITER": "R-C07-READCHECK"}, func(o *Obligation) bool {
+		return strings.HasPrefix(o.Construct, "shardedMap.IterValues")
+	})
 
 	// ---- R-C07-ZEROAGREE
 	c.Group("R-C07-ZEROAGREE", "clock comparisons", func() {
